@@ -1,6 +1,8 @@
 package props
 
 import (
+	"regexp"
+	"verif/fold"
 	"fmt"
 	"sort"
 	"strings"
@@ -20,7 +22,7 @@ import (
 // table_list, index_list, index_xinfo of SQLite on the same file.
 
 func normColl(c string) string {
-	c = strings.ToLower(c)
+	c = fold.Lower(c)
 	if c == "" {
 		return "binary"
 	}
@@ -28,15 +30,17 @@ func normColl(c string) string {
 }
 
 func featureOf(sqlText string) string {
-	u := strings.ToUpper(sqlText)
+	u := fold.Upper(sqlText)
 	var f []string
 	for _, k := range []string{"WITHOUT ROWID", "COLLATE", "DESC", "UNIQUE", "PRIMARY KEY", "AUTOINCREMENT", "DEFAULT", "CHECK", "REFERENCES", "CONSTRAINT"} {
 		if strings.Contains(u, k) {
-			f = append(f, strings.ToLower(strings.ReplaceAll(k, " ", "")))
+			f = append(f, fold.Lower(strings.ReplaceAll(k, " ", "")))
 		}
 	}
 	return strings.Join(f, "+")
 }
+
+var reIntegerArgs = regexp.MustCompile(`(?i)^\s*integer\s*\(`)
 
 func c10Table(c *sim.Ctx, low *sdb.Database, w *world.World, t *sq.Table) {
 	var tsql string
@@ -51,6 +55,17 @@ func c10Table(c *sim.Ctx, low *sdb.Database, w *world.World, t *sq.Table) {
 		}
 		detail["table_sql"] = tsql
 		detail["table"] = t.Name
+		// known finding: the parser drops the arguments of a type name, so INTEGER(10)
+		// PRIMARY KEY is taken for the rowid alias; every consequence for the primary key
+		// of such a table has one signature
+		for _, col := range t.Columns {
+			if col.PK > 0 && reIntegerArgs.MatchString(col.Type) {
+				switch field {
+				case "rowid-alias", "pk-columns", "pk-as-index", "pk-index-name", "phantom-index":
+					field = "integer-type-args"
+				}
+			}
+		}
 		c.Fail("schema-mismatch", "schema:"+field, fmt.Sprintf("table %q: %s\n      SQL: %s", t.Name, msg, strings.ReplaceAll(tsql, "\n", " ")), detail)
 	}
 	if err := low.RLock(); err != nil {
@@ -115,7 +130,7 @@ func c10Table(c *sim.Ctx, low *sdb.Database, w *world.World, t *sq.Table) {
 			gotAlias = col.Column
 		}
 	}
-	if !strings.EqualFold(aliasCol, gotAlias) || (aliasCol != "") != sc.RowidPK {
+	if !fold.Equal(aliasCol, gotAlias) || (aliasCol != "") != sc.RowidPK {
 		fail("rowid-alias", fmt.Sprintf("rowid alias column %q (RowidPK=%v), SQLite: %q", gotAlias, sc.RowidPK, aliasCol), nil)
 		return
 	}
@@ -137,7 +152,7 @@ func c10Table(c *sim.Ctx, low *sdb.Database, w *world.World, t *sq.Table) {
 		var wantPK []string
 		for _, x := range pkix.XInfo {
 			if x.Key != 0 {
-				wantPK = append(wantPK, fmt.Sprintf("%s/%s/%d", strings.ToLower(*x.Name), normColl(x.Coll), x.Desc))
+				wantPK = append(wantPK, fmt.Sprintf("%s/%s/%d", fold.Lower(*x.Name), normColl(x.Coll), x.Desc))
 			}
 		}
 		var gotPK []string
@@ -146,7 +161,7 @@ func c10Table(c *sim.Ctx, low *sdb.Database, w *world.World, t *sq.Table) {
 			if p.SortOrder == ssql.Desc {
 				d = 1
 			}
-			gotPK = append(gotPK, fmt.Sprintf("%s/%s/%d", strings.ToLower(p.Column), normColl(p.Collate), d))
+			gotPK = append(gotPK, fmt.Sprintf("%s/%s/%d", fold.Lower(p.Column), normColl(p.Collate), d))
 		}
 		// SQLite drops repeated columns from a WITHOUT ROWID primary key
 		if strings.Join(wantPK, ",") != strings.Join(gotPK, ",") {
@@ -161,7 +176,7 @@ func c10Table(c *sim.Ctx, low *sdb.Database, w *world.World, t *sq.Table) {
 				pkix = ix
 			}
 		}
-		if pkix != nil && !strings.EqualFold(sc.PrimaryKey, pkix.Name) {
+		if pkix != nil && !fold.Equal(sc.PrimaryKey, pkix.Name) {
 			fail("pk-index-name", fmt.Sprintf("PrimaryKey index %q, SQLite: %q", sc.PrimaryKey, pkix.Name), nil)
 			return
 		}
@@ -169,10 +184,10 @@ func c10Table(c *sim.Ctx, low *sdb.Database, w *world.World, t *sq.Table) {
 	// indexes
 	byName := map[string]*sq.Index{}
 	for _, ix := range t.Indexes {
-		byName[strings.ToLower(ix.Name)] = ix
+		byName[fold.Lower(ix.Name)] = ix
 	}
 	for _, si := range sc.Indexes {
-		ix := byName[strings.ToLower(si.Index)]
+		ix := byName[fold.Lower(si.Index)]
 		if ix == nil {
 			fail("phantom-index", fmt.Sprintf("reports index %q which SQLite does not have (SQLite: %v)", si.Index, keysOf(byName)), nil)
 			return
@@ -190,14 +205,14 @@ func c10Table(c *sim.Ctx, low *sdb.Database, w *world.World, t *sq.Table) {
 			}
 			n := "<expr>"
 			if x.Name != nil {
-				n = strings.ToLower(*x.Name)
+				n = fold.Lower(*x.Name)
 			}
 			wantK = append(wantK, fmt.Sprintf("%s/%s/%d", n, normColl(x.Coll), x.Desc))
 		}
 		for _, col := range si.Columns {
 			n := "<expr>"
 			if col.Column != "" {
-				n = strings.ToLower(col.Column)
+				n = fold.Lower(col.Column)
 			} else if col.Expression == "" {
 				n = "<empty>"
 			}
@@ -211,7 +226,7 @@ func c10Table(c *sim.Ctx, low *sdb.Database, w *world.World, t *sq.Table) {
 		if strings.Join(wantK, ",") != strings.Join(gotK, ",") {
 			var isql string
 			for _, m := range w.Snap.Master {
-				if m.Type == "index" && strings.EqualFold(m.Name, ix.Name) && m.SQL != nil {
+				if m.Type == "index" && fold.Equal(m.Name, ix.Name) && m.SQL != nil {
 					isql = *m.SQL
 				}
 			}
@@ -249,7 +264,7 @@ func c10Table(c *sim.Ctx, low *sdb.Database, w *world.World, t *sq.Table) {
 	// indexes sqlittle leaves out are accepted and counted
 	got := map[string]bool{}
 	for _, si := range sc.Indexes {
-		got[strings.ToLower(si.Index)] = true
+		got[fold.Lower(si.Index)] = true
 	}
 	for n, ix := range byName {
 		if !got[n] && !(t.WithoutRowid && ix.Origin == "pk") {
@@ -277,9 +292,9 @@ func c10Check(c *sim.Ctx, w *world.World) {
 	for _, m := range w.Snap.Master {
 		switch m.Type {
 		case "table":
-			wantT = append(wantT, strings.ToLower(m.Name))
+			wantT = append(wantT, fold.Lower(m.Name))
 		case "index":
-			wantI = append(wantI, strings.ToLower(m.Name))
+			wantI = append(wantI, fold.Lower(m.Name))
 		}
 	}
 	rt := ops.Run(d, ops.Op{Kind: "tables", Lock: true}, nil)
